@@ -5,8 +5,8 @@ import UralModel.Props.C15
 # C19, part `youtube` — `ural/youtube.py`
 
 Property theorems only (model: `Model/Youtube.lean`; helper lemmas: `Lemmas/Youtube.lean`,
-`Lemmas/YoutubeUrl.lean`, `Lemmas/YoutubeReparse.lean`).  Every theorem is about *every
-string* `url` (`urlsplit`, `safe_urlsplit`, `pathsplit`, `infer_redirection`,
+`Lemmas/YoutubeUrl.lean`, `Lemmas/YoutubeReparse.lean`, `Lemmas/YoutubeFields.lean`).  Every theorem
+is about *every string* `url` (`urlsplit`, `safe_urlsplit`, `pathsplit`, `infer_redirection`,
 `SplitResult.hostname` are the shared Lean models), every `idna` decoder `puny` and every
 `HostnameTrieSet` state `t` (in particular the one built from the regenerated domain list).
 
@@ -14,12 +14,21 @@ string* `url` (`urlsplit`, `safe_urlsplit`, `pathsplit`, `infer_redirection`,
   model (the `ValueError` of `urlsplit` is caught by the code: the `none ↦ false` case): total
   by construction; the correspondence checks on every run that the real functions raise
   nothing either.
-* totality: `parse_youtube_url_total`, `extract_video_id_total`, `normalize_youtube_url_total`.
-* validators: `record_valid`, `extract_video_id_valid`.
+* totality: `parse_youtube_url_total`, `extract_video_id_total`, `normalize_youtube_url_total`
+  (the model of `normalize_youtube_url` ends with the code's `raise TypeError` branch:
+  `normalize_raise_unreachable`, by `record_kind_exhaustive`).  The first step of the parser is
+  `infer_redirection`: its totality is C15's (`Ural.Props.C15.infer_total`; the model is defined by
+  well-founded recursion on the length of the url, like the loop of the code since /repo 0c9bfa3).
+* truncated routes parse to `None`: `truncated_route_none`, `truncated_short_host_none`,
+  `truncated_canonical_routes_none`.
+* validators: `record_valid` (`Valid`: ids are 11 long **whatever `fix_common_mistakes`**),
+  `extract_video_id_valid`.
 * round trip through the canonical url (`recordUrl r`, what `normalize_youtube_url` builds):
   `record_fields`, `record_names_no_continuation` (what the parser guarantees about the fields),
-  `reparse_url` / `reparse_url_module` — **full**: `parse u = some r → parse (recordUrl r) = some r`
-  for every string; `normalize_youtube_idempotent` / `normalize_youtube_idempotent_module` — **full**.
+  `reparse_url_any_fix` / `reparse_url_module` — **full**, for both values of `fix_common_mistakes`
+  in the first parse and in the re-parse: `parse u fix = some r → parse (recordUrl r) fix' = some r`
+  for every string; `normalize_youtube_idempotent` / `normalize_youtube_idempotent_module` — **full**;
+  `parse_normalize`: normalising preserves the parse (the `None` case included).
   The shapes that used to break it were repaired in /repo (55c9bda, d47b8e8, 569f4b6, 716cf1e, and
   the two fixes for the former known findings KF-C19-YT-4 / KF-C19-YT-5: TAB / CR / LF are removed
   before the regexes run; a playlist id stops at `/` and `%`).
@@ -66,6 +75,20 @@ theorem youtube_templates_unchanged :
     Gen.youtubeShortUrlTemplate.toList = shortPrefix ++ "%s".toList := by
   decide
 
+/-- the inline literal `"&list=%s"` of `normalize_youtube_url` (no module-level constant): the
+real function's answer on a probe video url with a playlist is what the model builds, i.e. the
+video template, the id, `listInfix`, the playlist id -/
+theorem youtube_list_infix_unchanged :
+    Gen.youtubeNormalizeListProbe.toList = recordUrl (.video "AAAAAAAAAAA".toList (some "P".toList)) ∧
+    recordUrl (.video "AAAAAAAAAAA".toList (some "P".toList)) =
+      videoPrefix ++ "AAAAAAAAAAA".toList ++ listInfix ++ "P".toList := by
+  decide
+
+/-- no label of a listed domain starts with `xn--`: the `idna` decoder is never consulted while
+the module's trie is built, which is why the driver may build it once (with the identity) -/
+theorem youtube_domains_no_puny_label :
+    ∀ d ∈ domains, ∀ l ∈ splitOn (lower (strip d)) '.', hasHeader l = false := by decide +kernel
+
 /-! ## totality -/
 
 /-- **`parse_youtube_url` never raises**, whatever the string, the option, the decoder and
@@ -91,31 +114,79 @@ theorem extract_video_id_total (puny : Str → Str) (t : T) (url : Str) (e : Err
   · rename_i e' h; exact absurd h (parse_youtube_url_total puny t url true e')
   all_goals simp
 
-/-- **`normalize_youtube_url` never raises** (its final `raise TypeError` is unreachable: the
-four record types are all handled) -/
+/-- every record is of one of the four kinds the `isinstance` chain of `normalize_youtube_url`
+tests (`YoutubeVideo`, `YoutubeUser`, `YoutubeChannel`, `YoutubeShort`) -/
+theorem record_kind_exhaustive (r : Record) :
+    (r.isVideo || r.isUser || r.isChannel || r.isShort) = true := by
+  cases r <;> rfl
+
+/-- a url that does not parse is returned unchanged (restatement of the `parsed is None` branch;
+a helper of the theorems below) -/
+theorem normalize_unparsed_fixed (puny : Str → Str) (t : T) (url : Str)
+    (h : parse_youtube_url puny t url true = .ok none) :
+    normalize_youtube_url puny t url = .ok url := by
+  unfold normalize_youtube_url
+  rw [h]
+
+/-- for a url that parses to a record, `normalize_youtube_url` returns the canonical url of that
+record: one of the four `isinstance` branches is taken, never the final `raise` -/
+theorem normalize_of_parsed (puny : Str → Str) (t : T) (url : Str) (r : Record)
+    (h : parse_youtube_url puny t url true = .ok (some r)) :
+    normalize_youtube_url puny t url = .ok (recordUrl r) := by
+  unfold normalize_youtube_url
+  rw [h]
+  cases r <;> rfl
+
+/-- **`normalize_youtube_url` never raises**.  The model ends, like the code, with the branch
+`raise TypeError("… impossible path reached")` (`.error .typeError`); it is not taken because
+the parser is total and every record is of one of the four tested kinds (`normalize_of_parsed`,
+`record_kind_exhaustive`) -/
 theorem normalize_youtube_url_total (puny : Str → Str) (t : T) (url : Str) (e : Err) :
     normalize_youtube_url puny t url ≠ .error e := by
-  unfold normalize_youtube_url
-  split
-  · rename_i e' h; exact absurd h (parse_youtube_url_total puny t url true e')
-  all_goals simp
+  cases hp : parse_youtube_url puny t url true with
+  | error e' => exact absurd hp (parse_youtube_url_total puny t url true e')
+  | ok o =>
+    cases o with
+    | none => rw [normalize_unparsed_fixed puny t url hp]; simp
+    | some r => rw [normalize_of_parsed puny t url r hp]; simp
+
+/-- **the final `raise TypeError` of `normalize_youtube_url` is unreachable** (the instance of
+`normalize_youtube_url_total` for the error the model's last branch produces) -/
+theorem normalize_raise_unreachable (puny : Str → Str) (t : T) (url : Str) :
+    normalize_youtube_url puny t url ≠ .error .typeError :=
+  normalize_youtube_url_total puny t url .typeError
+
+/-- the last branch of the model is really there: a chain of `isinstance` tests that all fail
+would raise (non-vacuity of `normalize_raise_unreachable`; no `Record` makes them all fail) -/
+example : ∀ r : Record, (if r.isVideo then (Except.ok (recordUrl r) : Except Err Str)
+      else if r.isUser then .ok (recordUrl r) else if r.isChannel then .ok (recordUrl r)
+      else if r.isShort then .ok (recordUrl r) else .error .typeError) = .ok (recordUrl r) := by
+  intro r; cases r <;> rfl
 
 /-! ## validators -/
 
 /-- **a returned record is well formed**: a video / short id satisfies `is_youtube_video_id`
-(and is exactly 11 characters long under `fix_common_mistakes`), a user has a non-empty name,
-a channel has either a non-empty id or a non-empty name that does not start with `@` -/
+and is exactly 11 characters long — with **either** value of `fix_common_mistakes`: the
+validator's `$` would accept one final `"\n"`, but TAB / CR / LF are removed from the url before
+anything is cut out of it —, a user has a non-empty name, a channel has either a non-empty id or
+a non-empty name that does not start with `@` and is not reserved.  (Channel ids are not checked
+against `is_youtube_channel_id`, by the code or here.) -/
 theorem record_valid (puny : Str → Str) (t : T) (url : Str) (fix : Bool) (r : Record)
-    (h : parse_youtube_url puny t url fix = .ok (some r)) : Valid fix r := by
+    (h : parse_youtube_url puny t url fix = .ok (some r)) : Valid r := by
   unfold parse_youtube_url at h
   simp only [] at h
+  have hsafe : Safe (stripUnsafe (infer url)) := stripUnsafe_safe _
   split at h
-  · simp at h; exact (videoOf_valid fix _ _ r h).1
+  · rename_i v hv
+    simp at h
+    exact videoOf_valid fix _ _ r (safe_of_infix _ _ (continuation_infix _ _ hv) hsafe) h
   · split at h
     · simp at h
-    · split at h
+    · rename_i parsed hs
+      split at h
       · simp at h
-      · exact parseSplit_valid fix _ _ r h
+      · exact parseSplit_valid fix _ _ r (fun c hc => (safe_urlsplit_path_chars _ parsed hs c hc).2.2)
+          (safe_urlsplit_query_chars _ parsed hs) h
 
 /-- the id `extract_video_id_from_youtube_url` returns satisfies `is_youtube_video_id` -/
 theorem extract_video_id_valid (puny : Str → Str) (t : T) (url id : Str)
@@ -126,12 +197,10 @@ theorem extract_video_id_valid (puny : Str → Str) (t : T) (url id : Str)
   · simp at h
   · rename_i id' pl hp
     simp at h; subst h
-    have := record_valid puny t url true _ hp
-    exact ⟨this.1, this.2 rfl⟩
+    exact record_valid puny t url true _ hp
   · rename_i id' hp
     simp at h; subst h
-    have := record_valid puny t url true _ hp
-    exact ⟨this.1, this.2 rfl⟩
+    exact record_valid puny t url true _ hp
   · simp at h
 
 /-- non-vacuity of the validators -/
@@ -167,6 +236,60 @@ theorem youtube_trie_knows_www (puny : Str → Str) : KnowsWww puny (youtubeTrie
   simp only [tok, tokLabels, e1, e2, List.map, punyPart, h1, h2, h3, List.reverse_reverse]
   exact ⟨["www".toList], rfl⟩
 
+/-! ## truncated routes parse to `None` -/
+
+/-- **a truncated two-segment route gives `None`**: a path that starts with `/user/`, `/c/`,
+`/channel/` or `/shorts/` and has fewer than two segments (`/user/`, `/c//`, `/channel/ `, …),
+whatever the query, the playlist and `fix_common_mistakes` -/
+theorem truncated_route_none (fix : Bool) (path query : Str) (pl : Option Str)
+    (hr : startsWith path "/user/".toList = true ∨ startsWith path "/c/".toList = true ∨
+      startsWith path "/channel/".toList = true ∨ startsWith path "/shorts/".toList = true)
+    (h : (pathsplit path).length < 2) : routePath fix path query pl = .ok none :=
+  routePath_truncated fix path query pl hr h
+
+/-- **`youtu.be/`, `youtu.be//`, `youtu.be` give `None`**: on a host that ends with `youtu.be`, a
+path without any segment -/
+theorem truncated_short_host_none (fix : Bool) (parsed : SplitResult) (pl : Option Str)
+    (hh : (hostnameOf parsed).isSome = true)
+    (he : endsWith (pyHostname parsed.netloc) "youtu.be".toList = true)
+    (h : pathsplit parsed.path = []) : parseSplit fix parsed pl = .ok none :=
+  parseSplit_short_host_truncated fix parsed pl hh he h
+
+/-- the four truncated routes on the canonical host, through the whole function (redirection
+inference, regexes, `urlsplit`, the trie), for every decoder and every trie that knows
+`www.youtube.com` -/
+theorem truncated_canonical_routes_none (puny : Str → Str) (t : T) (hT : KnowsWww puny t) (fix : Bool) :
+    parse_youtube_url puny t "https://www.youtube.com/user/".toList fix = .ok none ∧
+    parse_youtube_url puny t "https://www.youtube.com/c/".toList fix = .ok none ∧
+    parse_youtube_url puny t "https://www.youtube.com/channel/".toList fix = .ok none ∧
+    parse_youtube_url puny t "https://www.youtube.com/shorts/".toList fix = .ok none := by
+  have key : ∀ route : Str,
+      domainSplit ("https://www.youtube.com".toList ++ route) = none →
+      prefixClean ("https://www.youtube.com".toList ++ route) true = true →
+      searchClean "next=%2fwatch%3fv%3d".toList ("https://www.youtube.com".toList ++ route) = true →
+      searchClean "next%3d%252fwatch%253fv%253d".toList ("https://www.youtube.com".toList ++ route) = true →
+      cleanEnds ("https://www.youtube.com".toList ++ route) = true →
+      (∃ r, route = '/' :: r) → (∀ c ∈ route, c ≠ '?' ∧ c ≠ '#' ∧ isUnsafeUrlChar c = false) →
+      (startsWith route "/user/".toList = true ∨ startsWith route "/c/".toList = true ∨
+        startsWith route "/channel/".toList = true ∨ startsWith route "/shorts/".toList = true) →
+      (pathsplit route).length < 2 →
+      parse_youtube_url puny t ("https://www.youtube.com".toList ++ route) fix = .ok none := by
+    intro route h1 h2 h3 h4 h5 h6 h7 h8 h9
+    have := parse_path_url puny t hT roundtrip_obligations route [] fix h1 h2 h3 h4 h5 h6 h7
+      (by intro c hc; simp at hc) (by decide)
+    simp only [List.append_nil] at this
+    rw [this]
+    exact routePath_truncated fix route [] _ h8 h9
+  refine ⟨?_, ?_, ?_, ?_⟩
+  · exact key "/user/".toList (by decide) (by decide) (by decide) (by decide) (by decide) ⟨_, rfl⟩ (by decide)
+      (by decide) (by decide)
+  · exact key "/c/".toList (by decide) (by decide) (by decide) (by decide) (by decide) ⟨_, rfl⟩ (by decide)
+      (by decide) (by decide)
+  · exact key "/channel/".toList (by decide) (by decide) (by decide) (by decide) (by decide) ⟨_, rfl⟩ (by decide)
+      (by decide) (by decide)
+  · exact key "/shorts/".toList (by decide) (by decide) (by decide) (by decide) (by decide) ⟨_, rfl⟩ (by decide)
+      (by decide) (by decide)
+
 /-! ## round trip -/
 
 /-- **what the parser guarantees about the fields**: a playlist id is non-empty and holds none of
@@ -186,27 +309,36 @@ theorem record_names_no_continuation (puny : Str → Str) (t : T) (url : Str) (f
     (h : parse_youtube_url puny t url fix = .ok (some r)) : ∀ x, nameField r = some x → NoCont x :=
   (parse_fields_noCont puny t url fix r h).2
 
-/-- **re-parsing the canonical url gives the same record**, for every string `url`:
-`parse_youtube_url(url) = rec → parse_youtube_url(rec.url) = rec`, where `rec.url` is what
+/-- **re-parsing the canonical url gives the same record**, for every string `url` and **both
+values of `fix_common_mistakes`, in the first parse (`fix`) and in the re-parse (`fix'`)**:
+`parse_youtube_url(url, fix) = rec → parse_youtube_url(rec.url, fix') = rec`, where `rec.url` is what
 `normalize_youtube_url` builds (`recordUrl`).  `t` is any domain trie that knows
 `www.youtube.com` (`youtube_trie_knows_www`: the module's trie does, see `reparse_url_module`).
-Everything the round trip needs (`Good`) is guaranteed by the parser: `record_valid`,
-`record_fields`, `record_names_no_continuation`. -/
+Everything the round trip needs (`Good`) is guaranteed by the parser: `record_valid` (in
+particular the id is 11 long even without `fix_common_mistakes`, so `v[:11]` changes nothing in
+the re-parse), `record_fields`, `record_names_no_continuation`. -/
+theorem reparse_url_any_fix (puny : Str → Str) (t : T) (hT : KnowsWww puny t) (url : Str)
+    (fix fix' : Bool) (r : Record) (h : parse_youtube_url puny t url fix = .ok (some r)) :
+    parse_youtube_url puny t (recordUrl r) fix' = .ok (some r) :=
+  reparse_of_good puny t hT roundtrip_obligations r (record_valid puny t url fix r h)
+    (good_of_fields r (record_valid puny t url fix r h) (record_fields puny t url fix r h)
+      (record_names_no_continuation puny t url fix r h)) fix'
+
+/-- the instance `fix = fix' = True` (the default of the code, what `normalize_youtube_url` uses) -/
 theorem reparse_url (puny : Str → Str) (t : T) (hT : KnowsWww puny t) (url : Str) (r : Record)
     (h : parse_youtube_url puny t url true = .ok (some r)) :
     parse_youtube_url puny t (recordUrl r) true = .ok (some r) :=
-  reparse_of_good puny t hT roundtrip_obligations r (record_valid puny t url true r h)
-    (good_of_fields r (record_valid puny t url true r h) (record_fields puny t url true r h)
-      (record_names_no_continuation puny t url true r h))
+  reparse_url_any_fix puny t hT url true true r h
 
 /-- the same for the trie the module builds from `YOUTUBE_DOMAINS`: no hypothesis left -/
-theorem reparse_url_module (puny : Str → Str) (url : Str) (r : Record)
-    (h : parse_youtube_url puny (youtubeTrie puny) url true = .ok (some r)) :
-    parse_youtube_url puny (youtubeTrie puny) (recordUrl r) true = .ok (some r) :=
-  reparse_url puny _ (youtube_trie_knows_www puny) url r h
+theorem reparse_url_module (puny : Str → Str) (url : Str) (fix fix' : Bool) (r : Record)
+    (h : parse_youtube_url puny (youtubeTrie puny) url fix = .ok (some r)) :
+    parse_youtube_url puny (youtubeTrie puny) (recordUrl r) fix' = .ok (some r) :=
+  reparse_url_any_fix puny _ (youtube_trie_knows_www puny) url fix fix' r h
 
-/-- `parse_youtube_url` with the fuel-driven form of `infer_redirection` (`infer` is defined by
-well-founded recursion, which the kernel does not unfold: this form is what `decide` runs) -/
+/-- a helper for the `decide` examples, no part of the property: `parse_youtube_url` with the
+fuel-driven form of `infer_redirection` (`infer` is defined by well-founded recursion, which the
+kernel does not unfold: this form is what `decide` runs) -/
 theorem parse_eq_fuel (puny : Str → Str) (t : T) (url : Str) (fix : Bool) :
     parse_youtube_url puny t url fix =
       (let url := stripUnsafe (inferFuel inferTarget url.length url)
@@ -291,36 +423,57 @@ example :
     NoCont "a%20b%2Fnext=".toList := by
   rw [parse_eq_fuel, parse_eq_fuel, parse_eq_fuel, parse_eq_fuel]; decide +kernel
 
-/-! ## `normalize_youtube_url` is idempotent -/
+/-- non-vacuity of the truncated-route theorems (`truncated_route_none`,
+`truncated_short_host_none`), on whole urls: every one of them is `None`, not an `IndexError` -/
+example :
+    parse_youtube_url id smallTrie "youtu.be/".toList true = .ok none ∧
+    parse_youtube_url id smallTrie "youtu.be//".toList false = .ok none ∧
+    parse_youtube_url id smallTrie "http://youtu.be".toList true = .ok none ∧
+    parse_youtube_url id smallTrie "youtube.com/user/".toList true = .ok none ∧
+    parse_youtube_url id smallTrie "youtube.com/c//".toList false = .ok none ∧
+    parse_youtube_url id smallTrie "youtube.com/channel/ ".toList true = .ok none ∧
+    parse_youtube_url id smallTrie "youtube.com/shorts/".toList true = .ok none ∧
+    parse_youtube_url id smallTrie "youtube.com/v/".toList true = .ok none ∧
+    parse_youtube_url id smallTrie "youtube.com/embed/".toList false = .ok none := by
+  rw [parse_eq_fuel, parse_eq_fuel, parse_eq_fuel, parse_eq_fuel, parse_eq_fuel, parse_eq_fuel,
+    parse_eq_fuel, parse_eq_fuel, parse_eq_fuel]; decide +kernel
 
-/-- a url that does not parse is returned unchanged, hence is a fixed point -/
-theorem normalize_unparsed_fixed (puny : Str → Str) (t : T) (url : Str)
-    (h : parse_youtube_url puny t url true = .ok none) :
-    normalize_youtube_url puny t url = .ok url := by
-  unfold normalize_youtube_url
-  rw [h]
+/-- non-vacuity of `reparse_url_any_fix` / `record_valid` without `fix_common_mistakes`: a final
+line break does not end up in the id (it is removed before the regexes run, so the `$` of the
+validator never sees it); an over-long id is refused instead of cut; a record obtained without
+the option re-parses to itself without it -/
+example :
+    parse_youtube_url id smallTrie "youtube.com/watch?v=dQw4w9WgXcQ\n".toList false =
+      .ok (some (.video "dQw4w9WgXcQ".toList none)) ∧
+    parse_youtube_url id smallTrie "youtube.com/watch?v=dQw4w9WgXcQxx".toList false = .ok none ∧
+    parse_youtube_url id smallTrie "youtu.be/dQw4w9WgXcQ?list=PL1".toList false =
+      .ok (some (.video "dQw4w9WgXcQ".toList (some "PL1".toList))) ∧
+    parse_youtube_url id smallTrie (recordUrl (.video "dQw4w9WgXcQ".toList (some "PL1".toList))) false =
+      .ok (some (.video "dQw4w9WgXcQ".toList (some "PL1".toList))) := by
+  rw [parse_eq_fuel, parse_eq_fuel, parse_eq_fuel, parse_eq_fuel]; decide +kernel
+
+/-! ## `normalize_youtube_url` is idempotent -/
 
 /-- **`normalize_youtube_url` is idempotent**, for every string `url`:
 `normalize_youtube_url(normalize_youtube_url(url)) = normalize_youtube_url(url)` (`t`: any domain
-trie that knows `www.youtube.com`) -/
+trie that knows `www.youtube.com`).  `normalize_youtube_url` has no `fix_common_mistakes` argument:
+it calls the parser with the default. -/
 theorem normalize_youtube_idempotent (puny : Str → Str) (t : T) (hT : KnowsWww puny t)
     (url n : Str) (h : normalize_youtube_url puny t url = .ok n) : normalize_youtube_url puny t n = .ok n := by
-  unfold normalize_youtube_url at h
   cases hp : parse_youtube_url puny t url true with
   | error e => exact absurd hp (parse_youtube_url_total puny t url true e)
   | ok o =>
-    rw [hp] at h
     cases o with
     | none =>
-      simp only [Except.ok.injEq] at h
+      rw [normalize_unparsed_fixed puny t url hp] at h
+      injection h with h
       subst h
       exact normalize_unparsed_fixed puny t url hp
     | some r =>
-      simp only [Except.ok.injEq] at h
+      rw [normalize_of_parsed puny t url r hp] at h
+      injection h with h
       subst h
-      have := reparse_url puny t hT url r hp
-      unfold normalize_youtube_url
-      rw [this]
+      exact normalize_of_parsed puny t _ r (reparse_url puny t hT url r hp)
 
 /-- the same for the trie the module builds, in the usual form: no hypothesis left
 (`normalize_youtube_url` never raises: `normalize_youtube_url_total`) -/
@@ -338,5 +491,57 @@ example :
     normalize_youtube_url id smallTrie "https://www.youtube.com/watch?v=dQw4w9WgXcQ".toList =
       .ok "https://www.youtube.com/watch?v=dQw4w9WgXcQ".toList := by
   unfold normalize_youtube_url; rw [parse_eq_fuel, parse_eq_fuel]; decide +kernel
+
+/-! ## normalising preserves the parse -/
+
+/-- **`parse_youtube_url(normalize_youtube_url(url)) = parse_youtube_url(url)`**, for every
+string, the `None` case included (a url that does not parse is returned unchanged) -/
+theorem parse_normalize (puny : Str → Str) (t : T) (hT : KnowsWww puny t) (url : Str) :
+    ∃ n, normalize_youtube_url puny t url = .ok n ∧
+      parse_youtube_url puny t n true = parse_youtube_url puny t url true := by
+  cases hp : parse_youtube_url puny t url true with
+  | error e => exact absurd hp (parse_youtube_url_total puny t url true e)
+  | ok o =>
+    cases o with
+    | none => exact ⟨url, normalize_unparsed_fixed puny t url hp, hp⟩
+    | some r => exact ⟨recordUrl r, normalize_of_parsed puny t url r hp, reparse_url puny t hT url r hp⟩
+
+/-- the same for the trie the module builds: no hypothesis left -/
+theorem parse_normalize_module (puny : Str → Str) (url : Str) :
+    ∃ n, normalize_youtube_url puny (youtubeTrie puny) url = .ok n ∧
+      parse_youtube_url puny (youtubeTrie puny) n true = parse_youtube_url puny (youtubeTrie puny) url true :=
+  parse_normalize puny _ (youtube_trie_knows_www puny) url
+
+/-- `extract_video_id_from_youtube_url(normalize_youtube_url(url)) =
+extract_video_id_from_youtube_url(url)` -/
+theorem extract_video_id_normalize (puny : Str → Str) (t : T) (hT : KnowsWww puny t) (url n : Str)
+    (h : normalize_youtube_url puny t url = .ok n) :
+    extract_video_id_from_youtube_url puny t n = extract_video_id_from_youtube_url puny t url := by
+  obtain ⟨n', hn', hpn⟩ := parse_normalize puny t hT url
+  rw [h] at hn'
+  injection hn' with e
+  subst e
+  unfold extract_video_id_from_youtube_url
+  rw [hpn]
+
+/-- non-vacuity: an unparsed url and a short, through `normalize_youtube_url` -/
+example :
+    normalize_youtube_url id smallTrie "youtube.com/shorts/".toList = .ok "youtube.com/shorts/".toList ∧
+    normalize_youtube_url id smallTrie "m.youtube.com/shorts/dQw4w9WgXcQzz?x=1".toList =
+      .ok "https://www.youtube.com/shorts/dQw4w9WgXcQ".toList ∧
+    extract_video_id_from_youtube_url id smallTrie "https://www.youtube.com/shorts/dQw4w9WgXcQ".toList =
+      .ok (some "dQw4w9WgXcQ".toList) := by
+  unfold extract_video_id_from_youtube_url normalize_youtube_url
+  rw [parse_eq_fuel, parse_eq_fuel, parse_eq_fuel]; decide +kernel
+
+/-! ## the trie the module really builds -/
+
+/-- non-vacuity with the **real** trie (`youtubeTrie`, built from the regenerated
+`YOUTUBE_DOMAINS`; every other example uses the two-domain `smallTrie`): a user on a mobile
+country domain, parsed without `fix_common_mistakes` -/
+example :
+    parse_youtube_url id (youtubeTrie id) "m.youtube.fr/user/abc".toList false =
+      .ok (some (.user "abc".toList)) := by
+  rw [parse_eq_fuel]; decide +kernel
 
 end Ural.Props.C19.Youtube
